@@ -10,6 +10,7 @@ S (spec check on the implementation's artists, exact arithmetic by the extracted
 K: the Gallina model's drawn set (Model/Plot.v) vs the artists."""
 from lib import *  # noqa
 import gen
+import time
 import matplotlib
 matplotlib.use("Agg")
 from matplotlib.figure import Figure
@@ -20,10 +21,11 @@ from koala import plotting as kp
 from koala.lattice import Lattice, LatticeException
 
 DRIVERS = ("c16",)
-MODEL_TARGETS = ["Model/Clip.vo", "Model/Plot.vo"]
+MODEL_TARGETS = ["Model/Clip.vo", "Model/Plot.vo", "Model/PlotGlue.vo"]
 TARGETS = ["Proofs/ClipFacts.vo", "Proofs/PlotFacts.vo", "Proofs/VisFacts.vo", "Proofs/CoverFacts.vo", "Proofs/PlaqFacts.vo",
            "Proofs/PolyAreaFacts.vo", "Proofs/PolyCellFacts.vo", "Proofs/PolyRegionFacts.vo", "Proofs/PlaqCoverFacts.vo",
-           "Proofs/PolyStrictFacts.vo", "Proofs/PolyExactFacts.vo", "Proofs/PlaqPointFacts.vo"]
+           "Proofs/PolyStrictFacts.vo", "Proofs/PolyExactFacts.vo", "Proofs/PlaqPointFacts.vo",
+           "Proofs/ClipAnyFacts.vo", "Proofs/PlotGlueFacts.vo"]
 LEVEL = "proof"
 TRUST = [
     "hand-written Gallina model coq/Model/Plot.v of plotting.py (_process_plot_args, _broadcast_args, plot_vertices/edges/plaquettes replication rules, "
@@ -39,6 +41,16 @@ ASSUMPTIONS = ["edges spanning less than one cell per coordinate, generic positi
                "plaquettes are those reported by lattice.plaquettes (their legitimacy is C01's property)"]
 
 TOL = 1e-9
+
+
+def drv(ctx, lines):
+    """run the c16 driver; the (line, answer) pairs are remembered for the in-Coq re-evaluation (c16x.crosscheck)"""
+    import c16x
+    outs = run_driver(ctx.exe["c16"], lines)
+    c16x.record(ctx, lines, outs)
+    return outs
+
+
 COLOUR_POOL = ["#E7414E", "#5BB03E", "#4B64AC", "black", "r", "g", "b", "orange", "tab:purple", "#00aa88", "lightgrey", "y"]
 
 
@@ -348,7 +360,7 @@ def check_vertices(ctx, lc, pa, case):
         results[name] = r
         lines.append("verts " + lc.ser + " " + tok_subset(pa["subset"]) + " " + tok_labels(ld) + " " + str(len(pa["scheme"])))
         meta.append((name, ld, per_elem, r))
-    outs = run_driver(ctx.exe["c16"], lines)
+    outs = drv(ctx, lines)
     for (name, ld, per_elem, r), o in zip(meta, outs):
         what = f"plot_vertices[{name}]"
         if "error" in o:
@@ -389,8 +401,11 @@ def check_vertices(ctx, lc, pa, case):
     return results
 
 
-def check_edges(ctx, lc, pa, dirs, case):
+def check_edges(ctx, lc, pa, dirs, case, fn=None, fname="plot_edges"):
+    """fn: the plotting call whose artists are checked against lc's arrays (default kp.plot_edges on lc.lat; c16x passes
+    plot_dual of the primal lattice with lc = the dual lattice)"""
     res = ctx.res
+    fn = fn or kp.plot_edges
     lat, pos, edges, crossing = lc.lat, lc.pos, lc.edges, lc.crossing
     N = len(edges)
     idx, forms = label_forms(pa)
@@ -401,14 +416,14 @@ def check_edges(ctx, lc, pa, dirs, case):
         if dirs is not None and name == "full":
             kw["directions"] = np.array(dirs, dtype=int)
             dtok = "l " + str(N) + "".join(" " + hx(d) for d in dirs)
-        r = call_impl(kp.plot_edges, lat, **kw)
+        r = call_impl(fn, lat, **kw)
         lines.append("edges " + lc.ser + " " + tok_subset(pa["subset"]) + " " + tok_labels(ld) + " " + str(len(pa["scheme"])) + " " + dtok)
         meta.append((name, ld, per_elem, r, "directions" in kw))
-    outs = run_driver(ctx.exe["c16"], lines)
+    outs = drv(ctx, lines)
     spec_lines, spec_meta = [], []
     drawn_by_form = {}
     for (name, ld, per_elem, r, with_dirs), o in zip(meta, outs):
-        what = f"plot_edges[{name}]"
+        what = f"{fname}[{name}]"
         if "error" in o:
             raise RuntimeError(f"driver error {o['error']}")
         m_ok = o["res"][0] == "ok"
@@ -542,7 +557,7 @@ def check_edges(ctx, lc, pa, dirs, case):
             ctx.k_mismatch(f"{what}: drawn pieces differ: implementation {len(I)} pieces, model {len(M)}; only in implementation {onlyI}; only in model {onlyM}", case)
     # S by the extracted checker: clip lengths sum to 1, images disjoint
     if spec_lines:
-        for (what, g_edges), o in zip(spec_meta, run_driver(ctx.exe["c16"], spec_lines)):
+        for (what, g_edges), o in zip(spec_meta, drv(ctx, spec_lines)):
             if "error" in o:
                 raise RuntimeError(f"driver error {o['error']}")
             for gi, (e, taus) in enumerate(g_edges):
@@ -593,7 +608,7 @@ def check_plaquettes(ctx, lc, pa, case):
         r = call_impl(kp.plot_plaquettes, lat, labels=py_labels(ld), color_scheme=list(pa["scheme"]), subset=py_subset(pa["subset"]))
         lines.append("plaqs " + lc.ser + " " + ptok + " " + tok_subset(pa["subset"]) + " " + tok_labels(ld) + " " + str(len(pa["scheme"])))
         meta.append((name, ld, per_elem, r))
-    outs = run_driver(ctx.exe["c16"], lines)
+    outs = drv(ctx, lines)
     spec_lines, spec_meta = [], []
     by_form = {}
     for (name, ld, per_elem, r), o in zip(meta, outs):
@@ -671,7 +686,7 @@ def check_plaquettes(ctx, lc, pa, case):
                 ctx.k_mismatch(f"{what}: plaquette {i}: model draws {len(mpolys)} polygons (colour {col}), implementation {len(polys)} ({fcs[:1]}) or coordinates differ", case)
                 break
     if spec_lines:
-        for (what, g_meta), o in zip(spec_meta, run_driver(ctx.exe["c16"], spec_lines)):
+        for (what, g_meta), o in zip(spec_meta, drv(ctx, spec_lines)):
             if "error" in o:
                 raise RuntimeError(f"driver error {o['error']}")
             for gi, (i, taus) in enumerate(g_meta):
@@ -751,6 +766,8 @@ def evaluate_lattice(ctx, case):
         check_edges(ctx, lc, pae, dirs, full_case)
     if lc.plaqs:
         check_plaquettes(ctx, lc, pap, full_case)
+    import c16x
+    c16x.glue_checks(ctx, lc, full_case)       # K for the glue of Model/PlotGlue.v: colour resolution, defaults, color=, plot_dual
     for k, v in lc.img_hist.items():
         h = res.extra.setdefault("images_per_edge", {})
         h[k] = h.get(k, 0) + v
@@ -821,7 +838,7 @@ def evaluate_args(ctx, n_cases, seed):
         case = {"kind": "args", "N": N, "subset": sd, "labels": ld, "scheme": pa["scheme"]}
         lines.append("args %d %s %s %d" % (N, tok_subset(sd), tok_labels(ld), K))
         meta.append(case)
-    outs = run_driver(ctx.exe["c16"], lines)
+    outs = drv(ctx, lines)
     for case, o in zip(meta, outs):
         check_args_case(ctx, case, o)
 
@@ -914,7 +931,7 @@ def check_lint_case(ctx, case):
     got = np.asarray(kp.line_intersection(A.copy(), B.copy()))
     pairs = [(i, j) for i in range(n) for j in range(m)]
     line = "lint " + qtok(tol) + " " + str(len(pairs)) + " " + " ".join(seg_tokens(A[i]) + " " + seg_tokens(B[j]) for i, j in pairs)
-    o = run_driver(ctx.exe["c16"], [line])[0]
+    o = drv(ctx, [line])[0]
     if "error" in o:
         raise RuntimeError(f"driver error {o['error']}")
     c = Cursor(o["li"])
@@ -1017,12 +1034,21 @@ def run(ctx):
                     "colour schemes of 1..5 colours, arrows on ~40%; plus argument-handling cases on edgeless lattices (incl. malformed) and segment pairs for line_intersection. "
                     "non-trivial = periodic lattice in which at least one selected edge/plaquette is drawn in >= 2 images, or open lattice with a mask/index subset; "
                     "args case with a proper subset; segment pair in general position (distinct)")
+    import c16x
+    ctx.xrec = {}
     cases = lattice_cases(ctx.tier, ctx.seed)
+    if os.environ.get("C16_DEBUG_FEW"):
+        cases = cases[::12]
     for c in cases:
         evaluate_lattice(ctx, c)
     evaluate_args(ctx, 250 if ctx.tier == "quick" else 2000, ctx.seed)
     evaluate_intersections(ctx, 60 if ctx.tier == "quick" else 400, ctx.seed)
     default_scheme_sequence(ctx)
+    t0 = time.time()
+    c16x.evaluate_colour_args(ctx, 300 if ctx.tier == "quick" else 3000, ctx.seed)
+    ctx.res.extra.setdefault("glue_wall_s", {})["_process_plot_args"] = round(time.time() - t0, 2)
+    c16x.crosscheck(ctx)        # extraction cross-check: a sample of the driver's answers re-derived inside Coq
+    ctx.xrec = None
 
 
 def default_scheme_sequence(ctx):
@@ -1078,7 +1104,7 @@ def replay(ctx, payload):
     if k == "lattice":
         evaluate_lattice(ctx, case)
     elif k == "args":
-        o = run_driver(ctx.exe["c16"], ["args %d %s %s %d" % (case["N"], tok_subset(case["subset"]), tok_labels(case["labels"]), len(case["scheme"]))])[0]
+        o = drv(ctx, ["args %d %s %s %d" % (case["N"], tok_subset(case["subset"]), tok_labels(case["labels"]), len(case["scheme"]))])[0]
         check_args_case(ctx, case, o)
     elif k == "lint":
         check_lint_case(ctx, case)
